@@ -183,14 +183,16 @@ pub fn run(cfg: &RunCfg) -> PartResult {
         for d in dims {
             let n = entry.ne();
             let mut subgraphs = 0;
+            let mut batch: Vec<C06> = vec![];
             for mask in 1u64..(1u64 << n) {
                 if mask.count_ones() < 2 {
                     continue;
                 }
                 subgraphs += 1;
-                total.merge(check_harness(&C06 { entry: entry.clone(), d, mask, fp: true }, cfg));
-                total.merge(check_harness(&C06 { entry: entry.clone(), d, mask, fp: false }, cfg));
+                batch.push(C06 { entry: entry.clone(), d, mask, fp: true });
+                batch.push(C06 { entry: entry.clone(), d, mask, fp: false });
             }
+            total.merge(check_harnesses(&batch, cfg));
             if !entry.rounding {
                 total.merge(check_harness(&C06Shortcut { entry: entry.clone(), d }, cfg));
             }
